@@ -11,6 +11,7 @@ sentinel occurs in it) and TLC evaluates the policy on those emissions.  (All ot
 their own log output for the sentinels and print a note when one shows up.)"""
 import json
 import re
+import shutil
 import time
 
 import vlib
@@ -73,8 +74,38 @@ def run(tier, seed, replay=None):
         rt = vlib.tlc(sc, "Flows", "Flows.cfg", workers=1, timeout=600)
         if rt.rc != 0 or rt.depth - 1 != len(rows):
             raise Infra("TLC failed on the emissions trace (rc=%s, judged %d of %d):\n%s" % (rt.rc, rt.depth - 1, len(rows), rt.out[-2000:]))
-        for ln in [int(x) for x in re.findall(r'<<"REJECT", (\d+)>>', rt.out)]:
-            ev = rows[ln - 1]
+        rejects = [(rows, int(x)) for x in re.findall(r'<<"REJECT", (\d+)>>', rt.out)]
+        extra_lines = extra_paths = 0
+        if thorough:
+            # more of the other families' scenario spaces with the sentinel credentials configured: several-sources runs with refusals and
+            # stored checkpoints, whole syncs with drops / idle periods / a stored checkpoint, rump over 1-3 sources incl. key files
+            import random
+            from checks import fanin_common, c08, c16
+            rnd = random.Random(seed * 13 + 1)
+            fscen = [x for x in fanin_common.scenarios(rnd, 12) if max(x["refusals"]) <= 2]
+            for k in range(4):
+                tk = sc.path("trace-x%d.ndjson" % k)
+                off = c08.scenario(rnd, k)
+                off.update({"trace": sc.path("sub-offsets-x%d.ndjson" % k), "quiet_ms": 1500})
+                fin = dict(fscen[k % len(fscen)], trace=sc.path("sub-fanin-x%d.ndjson" % k))
+                subx = {"offsets": off, "fanin": fin, "supervisor": sub["supervisor"],
+                        "rump": {"seed": seed + k, "trace": sc.path("sub-rump-x%d.ndjson" % k), "dir": sc.dir, "src_pw": "src-SECRET-pw", "tgt_pw": "tgt-SECRET-pw",
+                                 "cases": [c16.gen_case(rnd, 500 + 10 * k + j, seed) for j in range(5)]}}
+                rc, out, err = vlib.run_vdrv(["secrets"], stdin=json.dumps({"seed": seed + k, "trace": tk, "dir": sc.dir, "sub": subx}), timeout=900,
+                                             env={"VERIF_LOG_DEBUG": "1"})
+                if rc != 0:
+                    raise Infra("vdrv secrets (extra run %d) failed rc=%s: %s" % (k, rc, err[-2000:]))
+                rx = json.loads(out)
+                extra_lines += rx["log_lines"]
+                extra_paths += len(rx["paths"])
+                rowsx = vlib.read_ndjson(tk)
+                shutil.copyfile(tk, sc.path("trace.ndjson"))
+                rtx = vlib.tlc(sc, "Flows", "Flows.cfg", workers=1, timeout=600)
+                if rtx.rc != 0 or rtx.depth - 1 != len(rowsx):
+                    raise Infra("TLC failed on the emissions trace of extra run %d (rc=%s, judged %d of %d):\n%s" % (k, rtx.rc, rtx.depth - 1, len(rowsx), rtx.out[-2000:]))
+                rejects += [(rowsx, int(x)) for x in re.findall(r'<<"REJECT", (\d+)>>', rtx.out)]
+        for rws, ln in rejects:
+            ev = rws[ln - 1]
             text = ev.get("text", "")
             # signature: which sink, which fields, and the shape of the emitting statement (text with the volatile parts removed)
             shape = re.sub(r"\d+", "N", re.sub(r"^\S+ \S+ ", "", text))[:80]
@@ -83,7 +114,7 @@ def run(tier, seed, replay=None):
                               {"family": "secrets", "event": ev})
         samples = [rows[0], {"paths": res["paths"]}, {"log_lines_by_level": res["by_level"]}]
     rc = verdict.finish()
-    cov = {"evaluations": res["log_lines"] + 4, "distinct_nontrivial": len(res["paths"]) + 4,
+    cov = {"evaluations": res["log_lines"] + 4 + extra_lines, "distinct_nontrivial": len(res["paths"]) + 4 + extra_paths,
            "rule": "emissions = every log line (all levels, %d lines in this run) + config echo + REST metric document + syncer status; distinct = run "
                    "paths exercised (%d) + documents (4); a line is non-trivial if it was produced while credentials were configured (all are)" % (res["log_lines"], len(res["paths"])),
            "samples": samples, "exhaustive": False, "states": rt.distinct, "transitions": rt.generated, "traces_validated_against_impl": 1,
